@@ -219,8 +219,11 @@ class Realiser:
         op = st["op"]
         if op == "if":
             o = ops(st["mv"])
-            self.uses_c = True
-            cond = self.c if st["cond"] == "c" else o.not_(self.c)
+            if st["cond"] in ("t", "f"):  # a constant condition (usable inside function bodies)
+                cond = o.const(np.array(st["cond"] == "t"))
+            else:
+                self.uses_c = True
+                cond = self.c if st["cond"] == "c" else o.not_(self.c)
 
             def mk(blk):
                 def f():
@@ -259,6 +262,17 @@ class Realiser:
         return mac["build"](ops(st["mv"]), st["mv"], args, st.get("p", {}))
 
     def model_of(self, md):
+        if md["kind"] == "ml_only":  # no default-domain node, no default-domain import
+            import onnx
+            from onnx import TensorProto as TP
+            from onnx import helper as h
+
+            g = h.make_graph([h.make_node("Scaler", ["a"], ["b"], domain="ai.onnx.ml", offset=[0.5], scale=[2.0])],
+                             "mlonly", [h.make_tensor_value_info("a", TP.FLOAT, [2, 3])],
+                             [h.make_tensor_value_info("b", TP.FLOAT, [2, 3])])
+            m = h.make_model(g, opset_imports=[h.make_operatorsetid("ai.onnx.ml", md["mlv"])], ir_version=8)
+            onnx.checker.check_model(m, full_check=True)
+            return m
         if md["kind"] == "if_ml":
             from spox import build
 
@@ -299,7 +313,7 @@ def np_block(nodes, env, c):
 def np_stmt(st, env, c):
     op = st["op"]
     if op == "if":
-        cond = c if st["cond"] == "c" else (not c)
+        cond = {"c": c, "nc": not c, "t": True, "f": False}[st["cond"]]
         blk = st["then"] if cond else st["else"]
         e = dict(env)
         np_block(blk["nodes"], e, c)
@@ -307,7 +321,7 @@ def np_stmt(st, env, c):
     if op == "inline":
         md = st["model"]
         a = env[st["args"][0]]
-        if md["kind"] == "if_ml":
+        if md["kind"] in ("if_ml", "ml_only"):
             return ((a - F32(0.5)) * F32(2.0)).astype(F32)
         if md["kind"] == "old":
             return OLD_NP[md["body"]](a).astype(F32)
@@ -344,6 +358,8 @@ def emitted(st) -> list[tuple[str, str, int]]:
         out = [("", "If", since("", "If", st["mv"]))]
         if st["cond"] == "nc":
             out.append(("", "Not", since("", "Not", st["mv"])))
+        if st["cond"] in ("t", "f"):
+            out.append(("", "Constant", since("", "Constant", st["mv"])))
         return out
     if op in ("inline", "func"):
         return []
@@ -365,6 +381,8 @@ def sub_blocks(st):
 
 def model_imports(md) -> list[tuple[str, int]]:
     """Opset imports of an inlined model, from its description alone."""
+    if md["kind"] == "ml_only":
+        return [("ai.onnx.ml", md["mlv"])]
     if md["kind"] == "if_ml":
         req = [("", since("", n, md["mv"])) for n in ("If", "Constant", "Neg")] + [("", 14)]
         req.append(("ai.onnx.ml", since("ai.onnx.ml", "Scaler", md["mlv"])))
@@ -546,7 +564,8 @@ class Gen:
             if r < 0.16 and depth < self.max_depth and self.size >= 2:
                 tb, tt = self.block(pool, tainted, depth + 1, 0, in_func)
                 eb, et = self.block(pool, tainted, depth + 1, 0, in_func)
-                st = {"id": self.fresh(), "op": "if", "mv": self.mv(), "cond": rng.choice(["c", "nc"]),
+                st = {"id": self.fresh(), "op": "if", "mv": self.mv(),
+                      "cond": rng.choice(["t", "f"] if in_func else ["c", "nc"]),
                       "then": tb, "else": eb}
                 if tt or et:
                     tainted.add(st["id"])
@@ -557,7 +576,7 @@ class Gen:
                 np_ = rng.randrange(1, 3)
                 params = [self.fresh() for _ in range(np_)]
                 save = self.max_depth
-                self.max_depth = min(self.max_depth, 1)
+                self.max_depth = min(self.max_depth, 2)
                 body, bt = self.block(params, set(), 1, 0, in_func=True)
                 self.max_depth = save
                 st = {"id": self.fresh(), "op": "func", "name": f"f{next(_uid)}",
@@ -591,6 +610,8 @@ class Gen:
 
     def model_desc(self):
         rng = self.rng
+        if rng.random() < 0.08:
+            return {"kind": "ml_only", "mlv": rng.choice([1, 2, 3])}
         if rng.random() < 0.12:
             return {"kind": "if_ml", "mv": rng.choice(DEFAULT_VERSIONS), "mlv": rng.choice(ML_VERSIONS)}
         if rng.random() < 0.6:
@@ -627,7 +648,6 @@ class Gen:
                 outs.append(o)
         prog = sink(prune({"nodes": nodes, "outs": outs}))
         if self.clean:
-            pin_bodies(prog)
             align_unknown_rank(prog)
         return prog
 
